@@ -850,6 +850,69 @@ def _run(chk, wd, proved, only=None):
         finally:
             with contextlib.redirect_stdout(sink), contextlib.redirect_stderr(sink):
                 tb.close()
+    # --- configuration -> credentials tie through the REAL ServerOptions.read_config: option-name spellings
+    #     (.ini option names are case-insensitive) and %(ENV_x)s expansions from the process environment,
+    #     from [supervisord] environment= and from both ([supervisord] wins).  The credentials each server
+    #     enforces must be the file's.
+    shaX = sha('dig-pw')
+    tie = [
+        ('optname:Capitalised', '[inet_http_server]\nport=127.0.0.1:9001\nUsername=admin\nPassword=s3cret\n', {}, None,
+         {'inet_http_server': ('admin', 's3cret', 's3cret')}),
+        ('optname:UPPER', '[unix_http_server]\nfile={SOCK0}\nUSERNAME=admin\nPASSWORD=s3cret\n', {}, None,
+         {'unix_http_server': ('admin', 's3cret', 's3cret')}),
+        ('optname:mixed', '[inet_http_server:a]\nport=127.0.0.1:9001\nusername=admin\nPassWord=%s\n\n'
+                          '[unix_http_server]\nfile={SOCK1}\nUserName=viewer\npassword=vpw\n' % shaX, {}, None,
+         {'inet_http_server:a': ('admin', shaX, 'dig-pw'), 'unix_http_server': ('viewer', 'vpw', 'vpw')}),
+        ('env:process-only', '[inet_http_server]\nport=127.0.0.1:9001\nusername=%(ENV_C17_U)s\npassword=%(ENV_C17_PW)s\n',
+         {'C17_U': 'envuser', 'C17_PW': 'env-pw'}, None, {'inet_http_server': ('envuser', 'env-pw', 'env-pw')}),
+        ('env:supervisord-only', '[unix_http_server]\nfile={SOCK0}\nusername=%(ENV_C17_U2)s\npassword=%(ENV_C17_PW2)s\n',
+         {}, 'C17_U2="cfguser",C17_PW2="cfg-pw"', {'unix_http_server': ('cfguser', 'cfg-pw', 'cfg-pw')}),
+        ('env:both-supervisord-wins', '[inet_http_server]\nport=127.0.0.1:9001\nusername=admin\npassword=%(ENV_C17_PW3)s\n\n'
+                                      '[unix_http_server]\nfile={SOCK1}\nusername=%(ENV_C17_U3)s\npassword=x\n',
+         {'C17_PW3': 'old-pw', 'C17_U3': 'olduser'}, 'C17_PW3="new-pw",C17_U3="newuser"',
+         {'inet_http_server': ('admin', 'new-pw', 'new-pw'), 'unix_http_server': ('newuser', 'x', 'x')}),
+        ('env:sha-digest', '[inet_http_server]\nport=127.0.0.1:9001\nusername=admin\npassword={SHA}%(ENV_C17_DIG)s\n',
+         {'C17_DIG': 'wrong' * 8}, 'C17_DIG="%s"' % shaX[5:], {'inet_http_server': ('admin', shaX, 'dig-pw')}),
+    ]
+    for ti, (tname, server_text, environ, sd_env, intended) in enumerate(tie):
+        sub = os.path.join(wd, 'cfg-tie%d' % ti)
+        os.makedirs(sub)
+        try:
+            configs, text = S.parse_config_file(sub, 'y%d' % ti, server_text, environ, sd_env)
+            with contextlib.redirect_stdout(sink), contextlib.redirect_stderr(sink):
+                tb = S.Testbed(sub, None, None, tag='y%d' % ti, configs=configs, config_text=text)
+        except Exception as e:
+            chk.violation({'kind': 'configuration file could not be read / servers not built', 'case': tname,
+                           'server_text': server_text, 'environ': environ, 'supervisord_environment': sd_env,
+                           'error': repr(e)}, nofail=True)
+            continue
+        try:
+            for which, cfg in enumerate(tb.configs):
+                fam = 'unix' if tb.addrs[which][0] == 1 else 'inet'
+                mine = intended[cfg['section']]
+                extra = {'case': tname, 'config_text': text, 'process_environment': environ,
+                         'server_section': cfg['section'], 'section_credentials': list(mine[:2]),
+                         'parsed': [cfg['username'], cfg['password']]}
+                logins = [('absent', None), ('own', (mine[0], mine[2])), ('wrong-password', (mine[0], mine[2] + 'x')),
+                          ('wrong-user', (mine[0] + 'x', mine[2]))]
+                for v in environ.values():
+                    logins.append(('process-environment-value', (mine[0], v)))
+                    logins.append(('process-environment-value', (v, mine[2])))
+                for path, method, body in (('/RPC2', 'POST', rpc_body('rec.kill', 'g:p')), ('/mainlogtail', 'GET', b'')):
+                    for who, login in logins:
+                        hl = [] if login is None else ['Authorization: Basic ' + b64(login[0] + ':' + login[1])]
+                        raw = build_request(method, path, ' HTTP/1.1', hl, body)
+                        o = observe(tb, which, raw, sink)
+                        n_exchanges += 1
+                        chk.dist('kind:config-tie:' + tname.split(':')[0])
+                        tags = ('config-tie', path, tname + ':' + who, method, 'HTTP/1.1')
+                        _judge(chk, mine[0], mine[1], tags, raw, o, fam, extra=extra)
+                        if login is not None and acceptable(mine[0], mine[1], login[0], login[1]) and not o['inner']:
+                            chk.violation({'kind': 'PROPERTY VIOLATED: the server refuses the credentials its configuration file '
+                                           'sets', 'sections': extra, 'server': fam, 'raw': list(raw), 'status': o['status']})
+        finally:
+            with contextlib.redirect_stdout(sink), contextlib.redirect_stderr(sink):
+                tb.close()
     # --- a REAL supervisord process on a unix socket, queried with and without credentials
     n_exchanges += _daemon_probe(chk, os.path.join(wd, 'daemon'))
     # --- extra single-line regex cases (random spellings)
